@@ -131,6 +131,8 @@ var vKinds = []string{
 	"copyOwner", "removeOwner",
 	"createUser", "dropUser", "updateUser", "setPriv", "setAdmin",
 	"createCQ", "dropCQ", "createSub", "dropSub",
+	// commands that succeed without changing anything (legacy < 0.10 node commands, remove-peer on a non-leader)
+	"legacyUpdateNode", "legacyDeleteNode", "removePeer",
 }
 
 func vTimestampGen(d *Data) *rapid.Generator[int64] {
@@ -324,6 +326,12 @@ func vDrawCommandOfKind(rt *rapid.T, cur *Data, kind string) vCommand {
 			Mode: proto.String(rapid.SampledFrom([]string{"ANY", "ALL"}).Draw(rt, "mode")), Destinations: rapid.SampledFrom([][]string{{"udp://h:9000"}, {"http://a:1", "http://b:2"}, {"bogus"}, {}}).Draw(rt, "dest")})
 	case "dropSub":
 		mk(internal.Command_DropSubscriptionCommand, internal.E_DropSubscriptionCommand_Command, &internal.DropSubscriptionCommand{Database: proto.String(db()), RetentionPolicy: proto.String(rp()), Name: proto.String(rapid.SampledFrom(vSubs).Draw(rt, "sub"))})
+	case "legacyUpdateNode":
+		mk(internal.Command_UpdateNodeCommand, internal.E_UpdateNodeCommand_Command, &internal.UpdateNodeCommand{ID: proto.Uint64(nodeID()), Host: proto.String("h")})
+	case "legacyDeleteNode":
+		mk(internal.Command_DeleteNodeCommand, internal.E_DeleteNodeCommand_Command, &internal.DeleteNodeCommand{ID: proto.Uint64(nodeID()), Force: proto.Bool(false)})
+	case "removePeer":
+		mk(internal.Command_RemovePeerCommand, internal.E_RemovePeerCommand_Command, &internal.RemovePeerCommand{ID: proto.Uint64(nodeID()), Addr: proto.String("mt0")})
 	default:
 		panic("unknown kind " + kind)
 	}
